@@ -134,7 +134,7 @@ def untyped_builder():
     return obs
 
 
-@scenario("toplevel:produce_regex", Y + ".produce_regex", ["C01", "C07", "C11"],
+@scenario("toplevel:produce_regex", Y + ".produce_regex", ["C01", "C07", "C11", "C14", "C13", "C19", "C02"],
           inlined=["_get_pattern", "_generate_rule_tree", "context_initializer", "PatternNodeBuilderNoParents",
                    "GeneralPatternNodeBuilder.build (whole chain)", "every get_regex of the tree"],
           doc="whole compilation of item-list patterns with opaque literal names, 4 flag settings")
@@ -154,6 +154,36 @@ def produce_regex():
                               lambda fm, fo, N: f"[0-9a-f]+::{win(N('w1'), fm)},{win(N('v1'), fo)},[^|]*\\|"
                                                 f"[0-9a-f]+::{win(N('w2'), fm)},[^|]*\\|"),
     }
+    # FRAME: a compilation reads the loaded document, it does not consume it -- the document is unchanged afterwards and a second
+    # produce_regex() on the same object gives the same regex (concrete rules with macros, arguments, config and times)
+    import copy as _copy
+    docs = {
+        "plain": {"pattern": ["push", {"mov": ["rsp", "rbp"]}]},
+        "config": {"config": {"style": "att", "mnemonics-full-match": True, "sections": [".text"], "valid_addr_range": {"min": "0x10", "max": "0x20"}},
+                   "pattern": [{"call": ["valid_addr"]}]},
+        "macros": {"macros": [{"name": "@m", "pattern": "mov"}, {"name": "@r", "pattern": "ax"}], "pattern": ["@m", {"push": ["%r@r"]}, {"add": ["%r@r", "%rcx"]}]},
+        "macro-args": {"macros": [{"name": "@z", "args": ["reg"], "pattern": [{"xor": ["reg", "reg"]}]}],
+                       "pattern": [{"@z": {"reg": "eax"}}, {"@z": {"reg": "ebx"}}]},
+        "macro-list-body": {"macros": [{"name": "@blk", "pattern": [{"$or": ["push", "pop"]}]}], "pattern": ["@blk", {"@blk": {"times": 2}}]},
+        "times-inside-deref": {"pattern": [{"lea": [{"$deref": {"main_reg": "rax", "times": 2}}, "rbx"]},
+                                           {"lea": [{"$deref": {"constant_offset": "0x8", "times": {"min": 0, "max": 1}, "main_reg": "rbx"}}]}]},
+        "times": {"pattern": [{"push": ["%r"], "times": 2}, {"mov": [{"$deref": {"main_reg": "rax"}, "times": {"min": 1, "max": 2}}, "rbx"]}]},
+    }
+    for did, doc in docs.items():
+        before = _copy.deepcopy(doc)
+        try:
+            y = _y2r(doc)
+            J.gd.JASMConfig().load_config(dict(doc.get("config", {})))
+            r1 = y.produce_regex()
+            mid = _copy.deepcopy(doc)
+            r2 = y.produce_regex()
+            ok = mid == before and doc == before and r1 == r2 and isinstance(r1, str)
+            detail = f"document changed: {doc != before}; first == second regex: {r1 == r2}"
+        except Exception as e:  # noqa
+            ok, detail = False, repr(e)
+        obs.append(simple_ob(f"produce_regex:{did}:FRAME-document", Y + ".produce_regex", "FRAME",
+                             f"[{did}] the loaded rule document (pattern, macros, config) is not modified by a compilation, and compiling it again "
+                             "from the same object gives the same regex", ok, ["C14", "C13", "C19", "C02", "C01"], detail=detail[:300], witness=did))
     for pid, (mk, spec) in pats.items():
         for fm in (False, True):
             for fo in (False, True):
